@@ -204,7 +204,7 @@ impl Family for AliasChain {
         let mod_of = |i: usize| -> &str { chain[i]["mod"].as_str().unwrap_or("M") };
         // layout: every link and the use site carry their own directive (x::a0, x::a1, ..), or all of them the same one
         // (x::a) with different arguments - what is accumulated is every written attribute, not one per directive
-        let same_directive = hash_str(&case["chain"].to_string()) % 2 == 0;
+        let same_directive = (hash_str(&case["chain"].to_string()) >> 3) % 2 == 0; // (the lowest bit of hash_str is always set)
         let dir = |i: usize| -> String { if same_directive { "x::a".to_owned() } else { format!("x::a{i}") } };
         let spell = |from: &str, j: usize| -> String {
             if mod_of(j - 1) == from { format!("L{j}") } else { format!("::{}::L{j}", mod_of(j - 1)) }
